@@ -70,4 +70,14 @@ theorem merge_outcome (g hg : G L D) (left right : Nat) (g' : G L D) (out : Merg
       next hl => cases h; exact ⟨fun e => (by cases e), fun ms e => (by cases e; exact ⟨m, hrun, hl, rfl⟩)⟩
   · cases h
 
+/-- the same outcome in the model of `merge()` in full (`mergeX`, with `join`): `Ok` stays `Ok`, `Err missed` stays `Err` with
+    the same missed vertices, the left graph is the same and no slot was removed -/
+theorem merge_in_full_same_outcome (g hg g' : G L D) (left right : Nat) (htgt : ∀ u, ∀ e ∈ edg hg u, e.2 < cap hg) :
+    (merge g hg left right = some (g', .ok) → mergeX ⟨g, []⟩ ⟨hg, []⟩ left right = (⟨g', []⟩, some .ok)) ∧
+    (∀ ms, merge g hg left right = some (g', .err ms) →
+      mergeX ⟨g, []⟩ ⟨hg, []⟩ left right = (⟨g', []⟩, some (.err ms))) :=
+  ⟨fun hm => mergeX_of_mergeT hg htgt g g' left right .ok .ok (mergeT_of_merge g hg g' left right .ok hm) rfl,
+   fun ms hm => mergeX_of_mergeT hg htgt g g' left right (.err ms) (.err ms)
+     (mergeT_of_merge g hg g' left right (.err ms) hm) rfl⟩
+
 end Props.C12
